@@ -39,9 +39,11 @@ CAN = {
     "ok3": "d4" * 8 + "5ec0de05" * 6,
     "non200": "e5" * 8 + "5ec0de06" * 6,       # a key document delivered with a status other than 200
     "badutf8": "f6" * 8 + "5ec0de07" * 6,      # a key document with a byte that is not UTF-8 next to the key
+    "k192": "a7" * 4 + "5ec0de08" * 5,         # a 192-bit key (valid hex, not 64 digits): HMAC takes any key length
+    "k512": "b8" * 8 + "5ec0de09" * 14,        # a 512-bit key
 }
 G += ["c12c12c1-0001-4000-8000-00000000000%d" % i for i in range(6, 9)]
-G += ["c12c12c1-0001-4000-8000-0000000000a%d" % i for i in range(1, 4)]
+G += ["c12c12c1-0001-4000-8000-0000000000a%d" % i for i in range(1, 6)]
 
 
 def renderings(c):
@@ -176,6 +178,35 @@ def busy_pool(c):
     return [{"e": "fs", "op": "mkdir", "mode": "default"}] + rows if not any(r.get("op") == "mkdir" for r in rows) else rows
 
 
+def after_provision(c):
+    """second-order state: the key is latched (directory restricted), THEN provisioning finishes and its tag files are
+    written into the same directory.  The key directory stays restricted for as long as it holds key files."""
+    name = "c12_afterprov"
+    steps = [plan("GET /secure-channel/status", 200, status_doc(None)),
+             plan("POST /secure-channel/key", 200, key_doc(G[0], CAN["ok1"])),
+             plan("POST /secure-channel/key/*", 200, ""),
+             {"op": "start_key_keeper", "interval_ms": 40}, {"op": "sleep", "ms": 600},
+             plan("GET /secure-channel/status", 200, status_doc(G[0])), {"op": "sleep", "ms": 200},
+             {"op": "key_state", "tag": "latched"}, {"op": "provision_timeup"}, {"op": "sleep", "ms": 200}]
+    ev, d, _ = rig.run_rig({"steps": steps, "drain_ms": 100}, name, timeout=120)
+    keydir = os.path.join(d, "keys")
+    if not any(e["e"] == "ProvisionTimeup" for e in ev) or not any(e["e"] == "KeyState" and e.get("guid") for e in ev):
+        raise util.ToolError("after-provision run: key not latched or the deadline handler did not run")
+    files = sorted(os.listdir(keydir)) if os.path.isdir(keydir) else []
+    if not any(f.endswith(".key") for f in files) or not any(f.endswith(".tag") for f in files):
+        raise util.ToolError("after-provision run: expected a key file and the tag files in %s, found %s" % (keydir, files))
+    rows = [{"e": "sink", "sink": "keydir", "where": "keys (after provisioning finished)", "canary": False, "phase": "afterprov",
+             "mode": "%04o" % stat.S_IMODE(os.stat(keydir).st_mode)}]
+    for f in files:
+        if f.endswith(".key"):
+            # the key file itself: not readable by group/others
+            m = stat.S_IMODE(os.stat(os.path.join(keydir, f)).st_mode)
+            c.extra.setdefault("after_provision", {})["key_file_mode"] = "%04o" % m
+    c.extra.setdefault("after_provision", {})["dir_mode"] = rows[0]["mode"]
+    shutil.rmtree(d, ignore_errors=True)
+    return rows
+
+
 def crash_leftovers(c, needles):
     """fault dimension: the process is killed at the k-th rename of the latch run (the temp-file -> final-name step of
     whatever is being published: the key file among them); whatever it leaves behind anywhere -- the run directory and a
@@ -271,6 +302,11 @@ def run(c):
                                                                              "body": {"hex": bad.hex()}}},
               plan("GET /secure-channel/status", 200, status_doc(G[10])), {"op": "sleep", "ms": 500},
               {"op": "key_state", "tag": "badutf8"}] + traffic("t9") + [{"op": "mark", "tag": "phase:badutf8"}]
+    # keys of other lengths than 256 bits (valid hex): stored, attested and used like any other
+    for gi, nm in ((11, "k192"), (12, "k512")):
+        steps += [plan("POST /secure-channel/key", 200, key_doc(G[gi], CAN[nm])),
+                  plan("GET /secure-channel/status", 200, status_doc(G[gi])), {"op": "sleep", "ms": 500},
+                  {"op": "key_state", "tag": nm}] + traffic("tk" + nm) + [{"op": "mark", "tag": "phase:" + nm}]
     # a key file left by an earlier run/version holds key material that is not hex; the host names that key
     keys_dir = os.path.join(d0, "keys")
     steps += [{"op": "write_file", "path": os.path.join(keys_dir, G[5] + ".key"), "text": json.dumps(key_doc(G[5], CAN["stale"]))},
@@ -366,7 +402,7 @@ def run(c):
         if r_["canary"] and r_["sink"] != "keyfile":
             leaks.setdefault((r_["sink"], ("key material",)), []).append((r_["where"], ""))
     rows += krows
-    allrows = fs_rows + rows + ownership_fault(c) + busy_pool(c)
+    allrows = fs_rows + rows + ownership_fault(c) + busy_pool(c) + after_provision(c)
     remaining = allrows
     c.traces_validated += 1
     for _ in range(10):
